@@ -118,7 +118,7 @@ func c07ProfTypes(r *Rng, core []int, aligned []c07Type) []c07Type {
 // conversions: the new unit must divide the value's physical quantity)
 func c07Converted(r *Rng, p *c07Prof) c07Prof {
 	perm := c07Perm(r, len(p.Types))
-	q := c07Prof{Build: p.Build, Sym: p.Sym}
+	q := c07Prof{Build: p.Build, Sym: p.Sym, Hom: p.Hom}
 	newUnits := make([]string, len(p.Types))
 	for j, t := range p.Types {
 		newUnits[j] = t.Unit
@@ -235,9 +235,10 @@ func c07GenCLI(r *Rng, i int) *c07Case {
 			f(&cs.Bases[k], true)
 		}
 	}
+	homonyms := false
 	switch x := r.Intn(100); {
-	case self || x < 25:
-	case x < 55:
+	case self || x < 20:
+	case x < 42:
 		// profiles from different builds: entries must still be combined by name
 		cs.Strategy += "+builds"
 		all(func(p *c07Prof, isBase bool) {
@@ -246,6 +247,23 @@ func c07GenCLI(r *Rng, i int) *c07Case {
 				p.Build = 1 + r.Intn(3)
 			}
 		})
+	case x < 72:
+		// homonym functions within and across the members: distinct functions, at different
+		// addresses, that agree on every key field but one (file / start line / system name)
+		cs.Strategy += "+homonyms"
+		homonyms = true
+		hot := []int{0, 11, 1, 8, 10, 9}
+		k := r.Intn(2)
+		all(func(p *c07Prof, isBase bool) {
+			p.Hom = k % 2
+			k += 1 + r.Intn(2)
+			for i := range p.Samples {
+				if r.Chance(60) && len(p.Samples[i].Stack) > 0 {
+					p.Samples[i].Stack[r.Intn(len(p.Samples[i].Stack))] = hot[r.Intn(len(hot))]
+				}
+			}
+		})
+		cs.Sources[0].Hom = 1
 	default:
 		// the same binary symbolized differently (same mapping, same addresses): renamed
 		// function, other line / file / start line, no symbol information
@@ -267,7 +285,12 @@ func c07GenCLI(r *Rng, i int) *c07Case {
 	aslr := false
 	all(func(p *c07Prof, isBase bool) { aslr = aslr || p.Aslr != 0 })
 	switch x := r.Intn(100); {
-	case x < 12:
+	case homonyms:
+		// always a granularity that keeps the file
+		cs.Gran = r.Pick([]string{"files", "filefunctions", "lines"})
+	case x < 8:
+		cs.Gran = "filefunctions"
+	case x < 16:
 		cs.Gran = "lines"
 	case x < 22:
 		cs.Gran = "files"
